@@ -64,10 +64,22 @@ structure Cfg where
   /-- converting constructor `FixedArray(const FixedArray<S>&)` yields a dense array
       (false: copies `_unmaskedLength` and the source's raw indices over the dense copy, as written) -/
   convertDense : Bool
+  /-- `extract_slice_indices` accepts the start `-1` CPython reports for an EMPTY backward slice
+      (false: `s < 0` raises `std::domain_error`, as written — `a[::-1]` on an empty array) -/
+  sliceEmptyBackward : Bool := false
+  /-- `ifelse_*` read `(*this)[i]` through the const `operator[]` (false: the non-const one, which raises on a
+      read-only array, as written) -/
+  ifelseConstRead : Bool := false
+  /-- `setitem_scalar_mask` on a masked reference looks at a mask of the reference's own length
+      (false: writes every referenced element, as written) -/
+  maskOnMaskedHonoured : Bool := false
   deriving DecidableEq, Repr
 
-def Cfg.asWritten : Cfg := ⟨false, false⟩
-def Cfg.repaired : Cfg := ⟨true, true⟩
+def Cfg.asWritten : Cfg := ⟨false, false, false, false, false⟩
+def Cfg.repaired : Cfg := ⟨true, true, true, true, true⟩
+
+/-- lowest admissible normalised start in `extract_slice_indices` -/
+def Cfg.minStart (c : Cfg) : Int := if c.sliceEmptyBackward then -1 else 0
 
 abbrev Heap := List (List Int)
 
@@ -208,7 +220,7 @@ inductive PyIdx
   | slice (start stop step : Option Int)
   deriving DecidableEq, Repr, Inhabited
 
-/-- result of `extract_slice_indices` -/
+/-- result of `extract_slice_indices` (`minStart` = 0 as written; -1 in the repaired variant) -/
 structure SliceIdx where
   start : Nat
   stop : Int          -- `end`; only assigned, never used afterwards
@@ -218,14 +230,14 @@ structure SliceIdx where
 
 /-- `extract_slice_indices(index, start, end, step, slicelength)`; `minEnd` is the
     lowest admissible `e` (`-1` in FixedArray / FixedVArray, `0` in FixedArray2D) -/
-def extractSliceIndices (len : Nat) (idx : PyIdx) (minEnd : Int := -1) : Except Err SliceIdx :=
+def extractSliceIndices (len : Nat) (idx : PyIdx) (minEnd : Int := -1) (minStart : Int := 0) : Except Err SliceIdx :=
   match idx with
   | .slice a b c =>
     match sliceUnpack a b c with
     | .error e => .error e
     | .ok (s, e, st) =>
       let (s, e, sl) := sliceAdjust len s e st
-      if s < 0 ∨ e < minEnd ∨ sl < 0 then .error .domainError
+      if s < minStart ∨ e < minEnd ∨ sl < 0 then .error .domainError
       else .ok ⟨s.toNat, e, st, sl.toNat⟩
   | .int i =>
     match canonicalIndex len i with
@@ -267,8 +279,8 @@ def View.writeSliceElem (v : View) (s : SliceIdx) (x : Int) (i : Nat) (h : Heap)
   | .error e => .error e
 
 /-- `getslice`: a fresh array holding a copy -/
-def getslice (h : Heap) (v : View) (idx : PyIdx) : Except Err (Heap × View) :=
-  match extractSliceIndices v.length idx with
+def getslice (h : Heap) (v : View) (idx : PyIdx) (minStart : Int := 0) : Except Err (Heap × View) :=
+  match extractSliceIndices v.length idx (-1) minStart with
   | .error e => .error e
   | .ok s =>
     match mapE (v.readSliceElem h s) (List.range s.slicelength) with
@@ -323,9 +335,9 @@ def convert (cfg : Cfg) (h : Heap) (other : View) : Except Err (Heap × View) :=
     else .ok (h', f)
 
 /-- `setitem_scalar` -/
-def setitemScalar (h : Heap) (v : View) (idx : PyIdx) (data : Int) : Except Err Heap :=
+def setitemScalar (h : Heap) (v : View) (idx : PyIdx) (data : Int) (minStart : Int := 0) : Except Err Heap :=
   if !v.writable then .error .readOnly else
-  match extractSliceIndices v.length idx with
+  match extractSliceIndices v.length idx (-1) minStart with
   | .error e => .error e
   | .ok s =>
     forLoop (v.writeSliceElem s data) s.slicelength 0 h
@@ -342,14 +354,21 @@ def View.writeIfMask (v mask : View) (x : Int) (i : Nat) (h : Heap) : Except Err
   | .ok m => if m != 0 then h.wr v.buf (v.pos i) x else .ok h
   | .error e => .error e
 
-/-- `setitem_scalar_mask` -/
-def setitemScalarMask (h : Heap) (v mask : View) (data : Int) : Except Err Heap :=
+/-- repaired masked branch: `if (mask[i]) _ptr[raw_ptr_index(i)*_stride] = x` -/
+def View.writeRawIfMask (v mask : View) (x : Int) (i : Nat) (h : Heap) : Except Err Heap :=
+  match mask.get h i with
+  | .ok m => if m != 0 then v.writeRaw x i h else .ok h
+  | .error e => .error e
+
+/-- `setitem_scalar_mask` (`honour` = false as written) -/
+def setitemScalarMask (h : Heap) (v mask : View) (data : Int) (honour : Bool := false) : Except Err Heap :=
   if !v.writable then .error .readOnly else
   match matchDimension v mask.length false with
   | .error e => .error e
   | .ok len =>
     if v.isMasked then
-      forLoop (v.writeRaw data) len 0 h
+      if honour ∧ mask.length = len then forLoop (v.writeRawIfMask mask data) len 0 h
+      else forLoop (v.writeRaw data) len 0 h
     else
       forLoop (v.writeIfMask mask data) len 0 h
 
@@ -360,9 +379,9 @@ def View.writeSliceFrom (v : View) (s : SliceIdx) (data : View) (i : Nat) (h : H
   | .error e => .error e
 
 /-- `setitem_vector` -/
-def setitemVector (h : Heap) (v : View) (idx : PyIdx) (data : View) : Except Err Heap :=
+def setitemVector (h : Heap) (v : View) (idx : PyIdx) (data : View) (minStart : Int := 0) : Except Err Heap :=
   if !v.writable then .error .readOnly else
-  match extractSliceIndices v.length idx with
+  match extractSliceIndices v.length idx (-1) minStart with
   | .error e => .error e
   | .ok s =>
     if data.length ≠ s.slicelength then .error .srcDimMismatch else
@@ -418,35 +437,35 @@ def setitemVectorMask (h : Heap) (v mask data : View) : Except Err Heap :=
         else packLoop v mask data len 0 0 h
 
 /-- `choice[i] ? (*this)[i] : other[i]` with the NON-const `(*this)[i]` -/
-def View.chooseFrom (h : Heap) (v choice other : View) (i : Nat) : Except Err Int :=
+def View.chooseFrom (h : Heap) (v choice other : View) (constRead : Bool) (i : Nat) : Except Err Int :=
   match choice.get h i with
   | .error e => .error e
-  | .ok c => if c != 0 then v.getNonConst h i else other.get h i
+  | .ok c => if c != 0 then (if constRead then v.get h i else v.getNonConst h i) else other.get h i
 
 /-- `choice[i] ? (*this)[i] : other` -/
-def View.chooseScalar (h : Heap) (v choice : View) (other : Int) (i : Nat) : Except Err Int :=
+def View.chooseScalar (h : Heap) (v choice : View) (other : Int) (constRead : Bool) (i : Nat) : Except Err Int :=
   match choice.get h i with
   | .error e => .error e
-  | .ok c => if c != 0 then v.getNonConst h i else .ok other
+  | .ok c => if c != 0 then (if constRead then v.get h i else v.getNonConst h i) else .ok other
 
 /-- `ifelse_vector`: `tmp[i] = choice[i] ? (*this)[i] : other[i]` with the NON-const `(*this)[i]` -/
-def ifelseVector (h : Heap) (v choice other : View) : Except Err (Heap × View) :=
+def ifelseVector (h : Heap) (v choice other : View) (constRead : Bool := false) : Except Err (Heap × View) :=
   match matchDimension v choice.length with
   | .error e => .error e
   | .ok len =>
     match matchDimension v other.length with
     | .error e => .error e
     | .ok _ =>
-      match mapE (v.chooseFrom h choice other) (List.range len) with
+      match mapE (v.chooseFrom h choice other constRead) (List.range len) with
       | .error e => .error e
       | .ok vals => .ok (alloc h vals)
 
 /-- `ifelse_scalar` -/
-def ifelseScalar (h : Heap) (v choice : View) (other : Int) : Except Err (Heap × View) :=
+def ifelseScalar (h : Heap) (v choice : View) (other : Int) (constRead : Bool := false) : Except Err (Heap × View) :=
   match matchDimension v choice.length with
   | .error e => .error e
   | .ok len =>
-    match mapE (v.chooseScalar h choice other) (List.range len) with
+    match mapE (v.chooseScalar h choice other constRead) (List.range len) with
     | .error e => .error e
     | .ok vals => .ok (alloc h vals)
 
@@ -671,7 +690,7 @@ def step (cfg : Cfg) (s : State) : Op → State × Res
     | .error e => (s, .error e)
   | .getslice v idx =>
     match s.view v with
-    | .ok a => s.withNew (getslice s.heap a idx)
+    | .ok a => s.withNew (getslice s.heap a idx cfg.minStart)
     | .error e => (s, .error e)
   | .getmask v m =>
     match s.view v, s.view m with
@@ -691,16 +710,16 @@ def step (cfg : Cfg) (s : State) : Op → State × Res
     | .error e => (s, .error e)
   | .setScalar v idx x =>
     match s.view v with
-    | .ok a => s.withHeap (setitemScalar s.heap a idx x)
+    | .ok a => s.withHeap (setitemScalar s.heap a idx x cfg.minStart)
     | .error e => (s, .error e)
   | .setScalarMask v m x =>
     match s.view v, s.view m with
-    | .ok a, .ok mk => s.withHeap (setitemScalarMask s.heap a mk x)
+    | .ok a, .ok mk => s.withHeap (setitemScalarMask s.heap a mk x cfg.maskOnMaskedHonoured)
     | .error e, _ => (s, .error e)
     | _, .error e => (s, .error e)
   | .setVector v idx d =>
     match s.view v, s.view d with
-    | .ok a, .ok da => s.withHeap (setitemVector s.heap a idx da)
+    | .ok a, .ok da => s.withHeap (setitemVector s.heap a idx da cfg.minStart)
     | .error e, _ => (s, .error e)
     | _, .error e => (s, .error e)
   | .setVectorMask v m d =>
@@ -711,12 +730,12 @@ def step (cfg : Cfg) (s : State) : Op → State × Res
     | _, _, .error e => (s, .error e)
   | .ifelseScalar v c x =>
     match s.view v, s.view c with
-    | .ok a, .ok ch => s.withNew (ifelseScalar s.heap a ch x)
+    | .ok a, .ok ch => s.withNew (ifelseScalar s.heap a ch x cfg.ifelseConstRead)
     | .error e, _ => (s, .error e)
     | _, .error e => (s, .error e)
   | .ifelseVector v c o =>
     match s.view v, s.view c, s.view o with
-    | .ok a, .ok ch, .ok ot => s.withNew (ifelseVector s.heap a ch ot)
+    | .ok a, .ok ch, .ok ot => s.withNew (ifelseVector s.heap a ch ot cfg.ifelseConstRead)
     | .error e, _, _ => (s, .error e)
     | _, .error e, _ => (s, .error e)
     | _, _, .error e => (s, .error e)
